@@ -344,7 +344,7 @@ def check_attr_loop(prog, fv, r3, r4):
         same_push = [p for p in pushes if _gkey(fv, p) == key]
         n += 1
         cls = None
-        if any(g[0] == "call" and g[1].endswith("HashSet::<T, S>::insert") and l == {"false"} for g, l, h in gs) or "insert(" in txt and ":F" in txt and "seen" in txt:
+        if any(g[0] == "call" and re.search(r"HashSet::<[^>]*>::insert$", g[1]) and l == {"false"} for g, l, h in gs) or "insert(" in txt and ":F" in txt and "seen" in txt:
             cls = "duplicate"
             r3.ok("skip @%d: duplicate attribute (first occurrence wins)" % fv.line(sb))
         elif any(g[0] == "discr" and any(c.endswith("Attribute::decode") for c in expr_calls(g)) and l == {"Err"} for g, l, h in gs):
@@ -448,7 +448,7 @@ def check_attr_loop(prog, fv, r3, r4):
     for b in sorted(set(errs)):
         gs = flat_guards(fv, b)
         txt = " & ".join(atom(g, l) for g, l, h in gs)
-        dup = any(g[0] == "call" and g[1].endswith("HashSet::<T, S>::insert") and l == {"false"} for g, l, h in gs)
+        dup = any(g[0] == "call" and re.search(r"HashSet::<[^>]*>::insert$", g[1]) and l == {"false"} for g, l, h in gs)
         brs_all = branches(fv)
         cd_atoms = []
         x = b
